@@ -95,14 +95,15 @@ fn spec_for(prop: &str, tier: &str, seed: u64) -> RunSpec {
             s.min_nontrivial = 10;
         }
         "C18" => {
-            s.rule = "scenarios against the real server binary on an ephemeral port (one process per scenario): 4-64 concurrent std::net client threads released by a barrier mix GET /health, POST /solve with fresh uniquely tagged valid instances (pre-screened by an isolated dry run; a third of them large), and the fixed list of fault kinds (not JSON, truncated JSON, wrong content type, empty body, 5 MB garbage, dribbled body, disconnect mid-body, missing field, dangling reference, bad timestamp, matrix mismatch, location missing in the dead-head matrix (at a route origin / at a depot), maintenance slot ending before it starts, dangling vehicle type, ragged matrix, unknown route, wrong method) with seeded delays; the history is recorded at the client boundary from one monotonic clock (a request without a response stays open) and judged offline: health = 200 Healthy, every answered valid solve carries exactly its own departure segments and passes the C01-C05/C07 oracles for its own input, faults never yield a schedule, the process is alive and answers a health and a solve probe after the burst. non-trivial = distinct interleaving signatures of scenarios in which >= 2 valid solves overlapped each other and >= 1 overlapped a request that panics inside the handler".to_string();
+            s.rule = "scenarios against the real server binary on an ephemeral port (one process per scenario): 4-64 concurrent std::net client threads released by a barrier mix GET /health, POST /solve with fresh uniquely tagged valid instances (pre-screened by an isolated dry run; a third of them large), and the fixed list of fault kinds (not JSON, truncated JSON, wrong content type, empty body, 5 MB garbage, dribbled body, disconnect mid-body, client hanging up after a complete valid request, missing field, dangling reference, bad timestamp, matrix mismatch, location missing in the dead-head matrix (at a route origin / at a depot), maintenance slot ending before it starts, dangling vehicle type, ragged matrix, unknown route, wrong method) with seeded delays; the history is recorded at the client boundary from one monotonic clock (a request without a response stays open) and judged offline: health = 200 Healthy, every answered valid solve carries exactly its own departure segments and passes the C01-C05/C07 oracles for its own input, faults never yield a schedule, the process is alive and answers a health and a solve probe after the burst. After the burst 2-8 concurrent keep-alive sessions carry 5-11 requests each on ONE connection (valid after invalid, different instances in a row, pipelined groups of 2-3 requests whose answers must come back in order); a request lost with a connection that had already carried others is re-sent on a fresh connection and judged there. non-trivial = distinct interleaving signatures of scenarios in which >= 2 valid solves overlapped each other and >= 1 overlapped a request that panics inside the handler".to_string();
             s.level = "fault_enumeration".to_string();
             s.cases = if thorough { 400 } else { 48 };
             s.workers = 8;
             s.cpu_budget_s = 900.0;
             s.min_nontrivial = 4;
             s.rayon_threads = vec![2];
-            s.extra_coverage.insert("fault_kinds".into(), serde_json::json!(["not_json", "truncated_json", "wrong_content_type", "empty_body", "garbage_5mb", "dribbled_body", "disconnect_mid_body", "missing_field", "dangling_reference", "bad_timestamp", "matrix_mismatch", "location_not_in_matrix_at_origin", "location_not_in_matrix_at_depot", "slot_ends_before_start", "dangling_vehicle_type", "ragged_matrix", "unknown_route", "wrong_method"]));
+            s.extra_coverage.insert("fault_kinds".into(), serde_json::json!(["not_json", "truncated_json", "wrong_content_type", "empty_body", "garbage_5mb", "dribbled_body", "disconnect_mid_body", "hang_up_after_request", "missing_field", "dangling_reference", "bad_timestamp", "matrix_mismatch", "location_not_in_matrix_at_origin", "location_not_in_matrix_at_depot", "slot_ends_before_start", "dangling_vehicle_type", "ragged_matrix", "unknown_route", "wrong_method"]));
+            s.extra_coverage.insert("keep_alive".into(), serde_json::json!("counters keep_alive_requests / _answered_on_a_reused_connection / _resent_on_a_fresh_connection / keep_alive_pipelined_groups under 'observed'"));
             s.extra_coverage.insert("soak".into(), serde_json::json!("every third scenario continues, after the concurrent burst, with 480 (quick) / 2000 (thorough) failing requests from 8 threads against the same server process and then solves every valid instance once more"));
         }
         "C12" => {
